@@ -28,6 +28,11 @@ func C18AfterLoad(ctx context.Context, run *common.Run) {
 			h     int
 		}
 		var picks []blk
+		// a side branch whose fork point ends up below the load-time prune height while its own
+		// headers reach above it: a Load may drop it, and must then not know its blocks either
+		var side []blk
+		forkH := c.tip - c.depth - 5
+		var forkHd *wire.BlockHeader
 		want := map[int]bool{1: true, 500: true, 999: true, 1000: true, 1001: true, c.tip - c.depth - 1: true, c.tip - c.depth: true, c.tip - 1: true, c.tip: true}
 		okAll := true
 		for h := 1; h <= c.tip; h++ {
@@ -46,6 +51,27 @@ func C18AfterLoad(ctx context.Context, run *common.Run) {
 				picks = append(picks, blk{hd, txids, h})
 			}
 			prev = hd
+			if h == forkH {
+				forkHd = hd
+			}
+			if h == forkH+10 && forkHd != nil {
+				sp := forkHd
+				for sh := forkH + 1; sh <= forkH+8; sh++ {
+					shd := &wire.BlockHeader{Version: 1, PrevBlock: *sp.BlockHash(), Timestamp: sp.Timestamp + 601, Bits: 0x1d00ffff, Nonce: rng.Uint32()}
+					stx := make([]Hash, 1+rng.Intn(6))
+					for i := range stx {
+						rng.Read(stx[i][:])
+					}
+					shd.MerkleRoot = RefMerkleRoot(stx)
+					if err := repo.ProcessHeader(ctx, shd); err != nil {
+						run.Inconclusive("after-load proofs: build side branch: " + err.Error())
+						okAll = false
+						break
+					}
+					side = append(side, blk{shd, stx, sh})
+					sp = shd
+				}
+			}
 		}
 		if !okAll {
 			continue
@@ -80,6 +106,30 @@ func C18AfterLoad(ctx context.Context, run *common.Run) {
 				case h != b.h || !l:
 					run.Violate(common.Violation{Clause: "reports-true-height-and-best-chain-status", Signature: fmt.Sprintf("valid-proof-wrong-result/after-load/height-delta=%d/flag=%v", clampDelta(h, b.h), l),
 						Detail: fmt.Sprintf("block %d of a %d-header chain loaded with prune depth %d: got (%d,%v)", b.h, c.tip, c.depth, h, l), Witness: w})
+				}
+			}
+		}
+		// blocks of the side branch: either the loaded repository still holds the branch (true
+		// height, not on the best chain) or it does not know the block at all
+		for _, b := range side {
+			for _, mode := range []struct{ hdr, hash bool }{{true, false}, {false, true}} {
+				pc := proofCase{Block: *b.hd.BlockHash(), Txids: b.txids, Index: rng.Intn(len(b.txids)), UseHdr: mode.hdr, UseHash: mode.hash}
+				var h int
+				var l bool
+				var err error
+				pan := safe(func() { h, l, err = loaded.VerifyMerkleProof(ctx, buildProof(b.hd, pc)) })
+				run.Eval(1)
+				run.DistinctStr(fmt.Sprintf("after-load-side/%d/%d/%d/%v/%v", c.tip, c.depth, b.h, mode.hdr, err == nil))
+				w := map[string]interface{}{"kind": "merkle-proof-after-load-side-branch", "tip": c.tip, "load_prune_depth": c.depth, "fork_height": forkH, "block_height": b.h, "with_header": mode.hdr, "seed": run.Seed}
+				switch {
+				case pan != "":
+					run.Violate(common.Violation{Clause: "verification-never-crashes", Signature: "verify-panic/after-load-side", Detail: pan, Witness: w})
+				case err != nil && errClass(err) != "unknown":
+					run.Violate(common.Violation{Clause: "valid-proof-verifies", Signature: fmt.Sprintf("side-block-proof-rejected-though-known/after-load/%s", errClass(err)),
+						Detail: fmt.Sprintf("side-branch block %d (fork at %d, chain %d, load prune depth %d): %v", b.h, forkH, c.tip, c.depth, err), Witness: w})
+				case err == nil && (h != b.h || l):
+					run.Violate(common.Violation{Clause: "reports-true-height-and-best-chain-status", Signature: fmt.Sprintf("side-block-wrong-result/after-load/height-delta=%d/flag=%v", clampDelta(h, b.h), l),
+						Detail: fmt.Sprintf("side-branch block %d (fork at %d, chain %d, load prune depth %d): got (%d,%v), the block is not on the best chain", b.h, forkH, c.tip, c.depth, h, l), Witness: w})
 				}
 			}
 		}
